@@ -11,7 +11,7 @@ CTOR = "impl/src/constructor.rs"
 
 
 def tx(t):
-    return T.ir_text(t.ir).replace(" ", "")
+    return A.TTxt(T.ir_text(t.ir).replace(" ", ""))
 
 
 def _path_after_root(e):
@@ -97,7 +97,7 @@ def rule_from_table(ctx):
     ctx.instance("skip_variant")
     if "let skip_variant=self.has_explicit_from||(self.variant.is_some()&&self.fields.is_empty())" not in body:
         ctx.report("from:skip_variant", ctx.where(f, fn.node), "`skip_variant` is no longer `has_explicit_from || (is a variant && has no fields)`", {})
-    mt = next((m for m, _ in A.find(fn.block, "Expr::Match") if A.render(m["expr"]) == "(self.attrs,skip_variant)"), None)
+    mt = next((m for m, _ in A.find(fn.block, "Expr::Match") if A.wfull(A.render(m["expr"]), "(self.attrs,skip_variant)")), None)
     if mt is None:
         raise A.AnchorLost(f"{FROM}::Expansion::expand", "match (self.attrs, skip_variant)")
     arms = [A.render_pat(a["pat"]) for a in mt["arms"]]
@@ -175,7 +175,7 @@ def rule_field_order(ctx):
         ctx.report("order:expand_fields:single", ctx.where(fn.file, fn.node), "the single-field case (`value` itself, no index) changed", {})
     ex = A.get_fn(ctx.files, FROM, "Expansion::expand")
     ts = T.templates_of(ex)
-    texts = [tx(x) for x in ts]
+    texts = A.TList(tx(x) for x in ts)
     per_field = {
         "types": "#(#ident:)*<#tyasderive_more::core::convert::From<#from_ty>>::from(value#(.#index)*),",
         "plain": "#(#ident:)*value#(.#index)*,",
@@ -215,7 +215,7 @@ def rule_field_order(ctx):
         ctx.report("order:into:kinds", ctx.where(ix.file, ix.node), "the (conversion list, is-reference, is-mutable) table of owned / ref / ref_mut changed", {})
     if "let tys=fields_tys.validate_type(out_ty)?.collect()" not in xt:
         ctx.report("order:into:validate", ctx.where(ix.file, ix.node), "Into no longer validates each listed type against the (non-skipped) field count", {})
-    its = [tx(x) for x in T.templates_of(ix)]
+    its = A.TList(tx(x) for x in T.templates_of(ix))
     ctx.instance("into:template")
     if not its or "(#(<#r#m#tysasderive_more::core::convert::From<_>>::from(#r#mvalue.#fields_idents)),*)" not in its[0]:
         ctx.report("order:into:template", ctx.where(ix.file, ix.node), "Into's body is no longer one `<Ty as From<_>>::from(value.field)` per (type, field) pair in order", {})
@@ -226,7 +226,7 @@ def rule_field_order(ctx):
     for part in ("(tuple_body(input_type,&field_vec),field_vec)", "(struct_body(input_type,&field_vec),field_vec)", "let original_types=&get_field_types(&fields)"):
         if part not in ct:
             ctx.report(f"order:ctor:{part[:24]}", ctx.where(ce.file, ce.node), f"Constructor: parameters, their types and the initialisers no longer come from one field list (`{part}`)", {})
-    cts = [tx(x) for x in T.templates_of(ce)]
+    cts = A.TList(tx(x) for x in T.templates_of(ce))
     if not cts or "pubconstfnnew(#(#vars:#original_types),*)->#input_type#ty_generics{#body}" not in cts[0]:
         ctx.report("order:ctor:signature", ctx.where(ce.file, ce.node), "Constructor signature is no longer `new(#(#vars: #original_types),*) -> Self`", {})
     tb = A.get_fn(ctx.files, CTOR, "tuple_body")
